@@ -60,14 +60,30 @@ Definition pf2 (fuel : nat) (first last : Z) : pfout :=
        we keep the index pair [(a, b)] next to it *)
 Inductive goutcome := GDone (calls : list ((Z * Z) * (Z * Z))) | GOutOfFuel.
 
+(** parallel_for_grainsize_aux after commit fa6ed3f: a range of at most one
+    index is a leaf whatever the grain size *)
 Fixpoint pg_aux (fuel : nat) (first a b step grain : Z) : goutcome :=
+  match fuel with
+  | O => GOutOfFuel
+  | S f =>
+    if (b - a <=? grain) || (b - a <=? 1) then GDone [((a, b), (first + a * step, first + b * step))]
+    else
+      let c := a + Z.quot (b - a) 2 in
+      match pg_aux f first a c step grain, pg_aux f first c b step grain with
+      | GDone l, GDone r => GDone (l ++ r)
+      | _, _ => GOutOfFuel
+      end
+  end.
+
+(** parallel_for_grainsize_aux as it was before that commit: [b - a <= grainsize] only *)
+Fixpoint pg_aux_prefix (fuel : nat) (first a b step grain : Z) : goutcome :=
   match fuel with
   | O => GOutOfFuel
   | S f =>
     if b - a <=? grain then GDone [((a, b), (first + a * step, first + b * step))]
     else
       let c := a + Z.quot (b - a) 2 in
-      match pg_aux f first a c step grain, pg_aux f first c b step grain with
+      match pg_aux_prefix f first a c step grain, pg_aux_prefix f first c b step grain with
       | GDone l, GDone r => GDone (l ++ r)
       | _, _ => GOutOfFuel
       end
@@ -111,9 +127,10 @@ Definition pf2_guard (bits first last : Z) : bool :=
   in_range bits first && in_range bits last && in_range bits (last - first).
 
 (** the grain-size variant also evaluates [first + b * step] for [b] = the
-    number of iterations, which may lie beyond [last] *)
+    number of iterations, which may lie beyond [last]; any representable grain
+    size is allowed, zero and negative ones included *)
 Definition pg_guard (bits first last step grain : Z) : bool :=
-  pf3_guard bits first last step && in_range bits grain && (1 <=? grain) &&
+  pf3_guard bits first last step && in_range bits grain &&
   in_range bits (count3 first last step * step) &&
   in_range bits (first + count3 first last step * step).
 
